@@ -47,7 +47,7 @@ func runC05rules(cfg Config, r *Result) {
 	}
 	// scope trees (harness/c05scope.go); the extracted model needs ~30 ms for one of these, hence few of them here
 	// (C05 proper runs many more against its own oracle)
-	scValid, scMut := c05ScopeMutants(cfg, cfg.N(30, 1500))
+	scValid, scMut := c05ScopeMutants(cfg, cfg.N(30, 100))
 	for _, p := range scValid {
 		run(p, "base:scope-tree")
 	}
